@@ -510,8 +510,10 @@ def main():
     if not replay:
         os.makedirs(os.path.join(VERIF, "evidence"), exist_ok=True)
         json.dump(ev, open(os.path.join(VERIF, "evidence", pid + ".json"), "w"), indent=1)
-    if os.environ.get("ZV_VERBOSE") or exit_code != 0:
-        sys.stderr.write("\n".join(log)[-8000:] + "\n")
+    if os.environ.get("ZV_VERBOSE"):
+        sys.stderr.write("\n".join(log)[-12000:] + "\n")
+    elif exit_code != 0:
+        sys.stderr.write("\n".join(l for l in log if not l.startswith("audit"))[-3000:] + "\n")
     shutil.rmtree(scratch, ignore_errors=True)
     print("%s %s: theorems=%d discharged=%d cases=%d model-compared=%d t2-diff=%d t3-viol=%d known=%d wall=%.1fs => %s" % (
         pid, tier, nthm, discharged, rep["evaluations"], rep["model_lines"], len(dis), len(rep["violations"]),
